@@ -44,6 +44,9 @@ var c02spellings = []struct {
 		}
 		return b.String()
 	}},
+	{"reversed-debug-info-field-order", true, func(vs []gen.Variant) string {
+		return reverseDIFields(gen.Module(vs))
+	}},
 	{"reversed-top-level-order", false, func(vs []gen.Variant) string {
 		r := make([]gen.Variant, len(vs))
 		for i, v := range vs {
@@ -55,6 +58,93 @@ var c02spellings = []struct {
 		}
 		return gen.Module(r)
 	}},
+}
+
+// reverseDIFields reverses the `name: value` field list of every specialised metadata node (the
+// order of named fields is free in LLVM assembly; !DIExpression holds positional operands and is
+// left alone), recursively for nodes written inline inside a field.
+func reverseDIFields(text string) string {
+	var out strings.Builder
+	i := 0
+	for i < len(text) {
+		j := strings.Index(text[i:], "!")
+		if j < 0 {
+			break
+		}
+		j += i
+		k := j + 1
+		for k < len(text) && (text[k] >= 'A' && text[k] <= 'Z' || text[k] >= 'a' && text[k] <= 'z') {
+			k++
+		}
+		name := text[j+1 : k]
+		if k >= len(text) || text[k] != '(' || !(strings.HasPrefix(name, "DI") || name == "GenericDINode") || name == "DIExpression" || name == "DIArgList" {
+			out.WriteString(text[i:k])
+			i = k
+			continue
+		}
+		// find the matching parenthesis and the top-level commas.
+		depth, inq := 0, false
+		end := -1
+		var cuts []int
+		for p := k; p < len(text); p++ {
+			ch := text[p]
+			if ch == '"' {
+				inq = !inq
+			}
+			if inq {
+				continue
+			}
+			switch ch {
+			case '(', '{', '[':
+				depth++
+			case ')', '}', ']':
+				depth--
+				if depth == 0 {
+					end = p
+				}
+			case ',':
+				if depth == 1 {
+					cuts = append(cuts, p)
+				}
+			}
+			if end >= 0 {
+				break
+			}
+		}
+		if end < 0 {
+			out.WriteString(text[i:k])
+			i = k
+			continue
+		}
+		var fields []string
+		prev := k + 1
+		for _, cpos := range append(cuts, end) {
+			fields = append(fields, strings.TrimSpace(text[prev:cpos]))
+			prev = cpos + 1
+		}
+		for a, b := 0, len(fields)-1; a < b; a, b = a+1, b-1 {
+			fields[a], fields[b] = fields[b], fields[a]
+		}
+		for a := range fields {
+			fields[a] = reverseDIFields(fields[a])
+		}
+		out.WriteString(text[i:k])
+		out.WriteString("(" + strings.Join(fields, ", ") + ")")
+		i = end + 1
+	}
+	out.WriteString(text[i:])
+	return out.String()
+}
+
+// c02anyAccepted reports whether the parser accepts the module in at least one spelling (each
+// accepted spelling is an input in C02's quantifier, also when the plain one is rejected).
+func c02anyAccepted(vs []gen.Variant) bool {
+	for _, sp := range c02spellings {
+		if _, errs, pan := parseTry(sp.f(vs)); errs == "" && pan == "" {
+			return true
+		}
+	}
+	return false
 }
 
 func reverse(s []string) []string {
@@ -99,6 +189,7 @@ func quoteNames(x string) string {
 // c02test returns "" if the batch satisfies the fixpoint oracle in all spellings.
 func c02test(vs []gen.Variant) (kind, what, detail, printed string) {
 	var y0 string
+	plainRejected := false
 	for _, sp := range c02spellings {
 		if sp.name == "reversed-top-level-order" && len(vs) == 1 && vs[0].Solo {
 			continue // reordering definitions of unnamed @N values renumbers them: not a respelling
@@ -110,7 +201,13 @@ func c02test(vs []gen.Variant) (kind, what, detail, printed string) {
 		}
 		if errs != "" {
 			if sp.name == "plain" {
-				return "", "", "", "" // not an accepted input: outside C02's quantifier (C01 owns acceptance)
+				// not an accepted input: outside C02's quantifier (C01 owns acceptance); the
+				// respellings are inputs in their own right.
+				plainRejected = true
+				continue
+			}
+			if plainRejected {
+				continue
 			}
 			return "spelling-rejected/" + sp.name, "a respelling of an accepted input is rejected", errs, x
 		}
@@ -136,7 +233,7 @@ func c02test(vs []gen.Variant) (kind, what, detail, printed string) {
 		}
 		if sp.name == "plain" {
 			y0 = y
-		} else if sp.sameAsRaw && y != y0 {
+		} else if sp.sameAsRaw && !plainRejected && y != y0 {
 			return "spelling-sensitive/" + sp.name, "a pure respelling of the input changes the printed module", firstDiff(y0, y), y
 		}
 	}
@@ -207,7 +304,7 @@ func runC02(c *fw.Check) {
 	}
 	entries := gen.Catalogue()
 	all, batches := genBatches(entries, bound, 40)
-	c.Rule = fmt.Sprintf("same generated module space as C01 (all variants with <=%d deviations of a %d-production catalogue, including constructs LLVM 14 does not know) x spelling alphabet {plain, every name redundantly quoted, comments+irregular whitespace everywhere, reversed top-level order}: y=print(parse(x)) must be accepted, print(parse(y)) must equal y byte for byte, the two parsed modules must have the same structural digest (reflection walk with pointer identity made explicit), and pure respellings must print the same y. The same for all two-variant modules (every ordered pair of productions, every ordered pair of <=1-deviation variants of one production, twins). No LLVM involved. distinct = (variant or pair, spelling).", bound, len(entries))
+	c.Rule = fmt.Sprintf("same generated module space as C01 (all variants with <=%d deviations of a %d-production catalogue, including constructs LLVM 14 does not know) x spelling alphabet {plain, every name redundantly quoted, comments+irregular whitespace everywhere, reversed field order in every specialised metadata node, reversed top-level order}: y=print(parse(x)) must be accepted, print(parse(y)) must equal y byte for byte, the two parsed modules must have the same structural digest (reflection walk with pointer identity made explicit), and pure respellings must print the same y. The same for all two-variant modules (every ordered pair of productions, every ordered pair of <=1-deviation variants of one production, twins). No LLVM involved. distinct = (variant or pair, spelling).", bound, len(entries))
 	c.Extra["variants"] = len(all)
 	c.Extra["spellings"] = len(c02spellings)
 	fs := &failSet{}
@@ -220,7 +317,7 @@ func runC02(c *fw.Check) {
 		// drop variants the library does not accept in plain spelling (C01 reports those).
 		var acc []gen.Variant
 		for _, v := range batches[i] {
-			if _, errs, pan := parseTry(gen.Module([]gen.Variant{v})); errs == "" && pan == "" {
+			if c02anyAccepted([]gen.Variant{v}) {
 				acc = append(acc, v)
 			} else {
 				mu.Lock()
